@@ -378,7 +378,12 @@ def encode_bits(name, ty, v):
 def as_form(v, form, depth=0):
     """the Python value handed to bind(): sequences as tuples, as lists, or alternating by depth"""
     if isinstance(v, list):
-        seq = [as_form(x, form, depth + 1) for x in v]
+        inner = "tuple" if form in ("iterator", "generator") else form
+        seq = [as_form(x, inner, depth + 1) for x in v]
+        if depth == 0 and form == "iterator":
+            return iter(seq)  # a one-shot iterator: bind may walk it only once
+        if depth == 0 and form == "generator":
+            return (x for x in seq)
         if form == "list" or (form == "mixed" and depth % 2 == 0):
             return seq
         return tuple(seq)
@@ -475,7 +480,7 @@ class Gen:
                     vals = dict(vals)
                     t0 = dict(u["params"]).get(n0, "bool")
                     vals[n0] = (2 ** (width(t0) or 3)) if not isinstance(vals[n0], list) else vals[n0][:1]
-        a = {"target": u["id"], "values": vals, "order": order, "form": r.choice(["tuple", "list", "mixed"])}
+        a = {"target": u["id"], "values": vals, "order": order, "form": r.choice(["tuple", "tuple", "list", "mixed", "iterator", "generator"])}
         if fault:
             a["fault"] = fault
         self.add("bind", a, [u["id"]])
